@@ -273,12 +273,30 @@ func (d *romDriver) scenario(big bool) {
 			}
 		case x < 8:
 			var buf bytes.Buffer
+			pre := []int{0, 0, 1, 16, 80, 200}[r.Intn(6)] // the destination may already hold data: 80 bytes are APPENDED
+			for i := 0; i < pre; i++ {
+				buf.WriteByte(byte(i * 3))
+			}
 			e := rom.Header.WriteHeader(&buf)
-			bs := make([]int, buf.Len())
-			for i, b := range buf.Bytes() {
+			tail := []byte{}
+			if buf.Len() >= pre {
+				tail = buf.Bytes()[pre:]
+			}
+			bs := make([]int, len(tail))
+			for i, b := range tail {
 				bs[i] = int(b)
 			}
 			d.emit(map[string]interface{}{"k": "ser", "err": errClass(e), "bytes": bs})
+		case x < 10 && r.Intn(5) == 0:
+			// the image is replaced by another one of the same length (a patched copy): header operations must act on
+			// the image the ROM holds now; handles opened on the old image are dropped
+			nc := append([]byte(nil), rom.Contents...)
+			for k := 1 + r.Intn(6); k > 0; k-- {
+				nc[0x7FB0+r.Intn(80)] = byte(r.Intn(256))
+			}
+			rom.Contents = nc
+			handles = map[int]*handle{}
+			d.emit(map[string]interface{}{"k": "swap"})
 		case x < 10:
 			off := 0x7FB0 + r.Intn(80)
 			if r.Intn(4) == 0 {
